@@ -246,7 +246,7 @@ def jsonable(x):
 
 def run_c11(ctx, fa):
     rnd = ctx.sub_rnd("c11")
-    n = 700 if ctx.quick() else 8000
+    n = 1500 if ctx.quick() else 10000
     cases = []
     while len(cases) < n:
         g = gen.Gen(rnd, logical=rnd.random() < 0.5, max_depth=rnd.choice([1, 2, 3]), big=False, aliases=rnd.random() < 0.3)
@@ -328,7 +328,7 @@ def cosmetic(rnd, g, ir):
 def run_c13(ctx, fa):
     from fastavro.schema import to_parsing_canonical_form
     rnd = ctx.sub_rnd("c13")
-    n = 350 if ctx.quick() else 5000
+    n = 600 if ctx.quick() else 6000
     cases = []
     tries = 0
     while len(cases) < n and tries < 4 * n:
